@@ -69,6 +69,14 @@ def templates():
     T["subroutine-then-classical-capturing-closure"] = main("    r = sub(n)\n    def inner(k: int):\n        return k + n\n    q = inner(2)\n    return q + r\n", sub)
     T["classical-capturing-closure-then-subroutine"] = main("    def inner(k: int):\n        return k + n\n    q = inner(2)\n    r = sub(n)\n    return q + r\n", sub)
     T["statement-then-classical-capturing-closure"] = main("    {X}\n    def inner(k: int):\n        return k + n\n    q = inner(2)\n    return q\n")
+    # the statement at the end of a chain of subroutines, each called from inside two loops and a branch of the previous one
+    # (every loop body, branch and call is one more frame for the analysis as for the interpreters)
+    for depth in (3, 6):
+        chain = "@move\ndef d%d(m: int):\n" % depth + PRO + "    {X}\n    return m\n\n"
+        for k in range(depth - 1, 0, -1):
+            chain += (f"@move\ndef d{k}(m: int):\n    acc = 0\n    i = 0\n    j = 0\n    for i in range(1):\n        for j in range(1):\n"
+                      f"            if m >= 0:\n                acc = acc + d{k + 1}(m)\n    return acc\n\n")
+        T[f"subroutine-chain-{depth}-deep-in-loops-and-branches"] = main("    r = d1(n)\n", chain)
     # a wrapper that calls a DIFFERENT kernel carrying the same name (user wrapper around a library routine)
     T["same-name-subroutine"] = ("two-step", "@move\ndef prepare(m: int):\n" + PRO + "    {X}\n    return m\n",
                                  "@move\ndef prepare(m: int):\n    return lib_prepare(m)\n\n" + main("    r = prepare(n)\n"))
@@ -238,9 +246,23 @@ def operand_forms(ctx, S):
     ctx.count("device statements x operand forms (views, shifted/scaled/built grids, annotated parameters)", n)
 
 
+def reflect_depth(ctx, S):
+    """the analysis looks at least as deep as the interpreters execute (Model.Runtime's d is ONE bound for both)"""
+    from bloqade.shuttle.analysis.runtime import RuntimeAnalysis
+    from bloqade.shuttle.arch import ArchSpecInterpreter
+    from bloqade.shuttle.prelude import move
+    from kirin.interp import Interpreter
+    a = RuntimeAnalysis(move).max_depth
+    i = max(Interpreter(move).max_depth, ArchSpecInterpreter(move, arch_spec=S).max_depth)
+    ctx.extra["reflected_max_depth"] = {"analysis": a, "interpreters": i}
+    ctx.obligation("reflected: RuntimeAnalysis.max_depth >= the interpreters' max_depth (frames the analysis refuses to enter are frames no execution enters)",
+                   a >= i, f"analysis {a} < interpreters {i}")
+
+
 def run(ctx):
     S = tweezer_prog.harness_spec()
     reflect_tables(ctx, S)
+    reflect_depth(ctx, S)
     operand_forms(ctx, S)
     T = templates()
     ctx.rule = (f"each of the eight device-visible statements (and a quiet statement) at each of {len(T)} positions: top level, either branch, after a "
